@@ -394,10 +394,12 @@ theorem processBunch_bal (c : Conn) (x : Channel) (b : Bunch) (h : BInvK c 1) (h
   · exact (emit_free_node c 1 h).cast (by omega)
   · split
     · split
-      · rename_i q hq
-        have := setChan_replace_bal c b.chIndex x { x with inRec := q } 1 h hx
-        exact this.cast (by simp [nodesOf, enqueue_length b x.inRec q hq]; omega)
       · exact (emit_free_node c 1 h).cast (by omega)
+      · split
+        · rename_i q hq
+          have := setChan_replace_bal c b.chIndex x { x with inRec := q } 1 h hx
+          exact this.cast (by simp [nodesOf, enqueue_length b x.inRec q hq]; omega)
+        · exact (emit_free_node c 1 h).cast (by omega)
     · exact receivedNextBunch_bal c b h
 
 theorem createChan_bal (c : Conn) (ch : Nat) (d : Int) (h : BInvK c d) (hn : c.getChan ch = none) : BInvK (c.createChan ch) d := by
